@@ -13,10 +13,13 @@
 //!               PRINT a, under the four (context, global context) configurations, two print
 //!               spellings
 //!   F4 capture  F1/F2 programs inside every stack of <= 3 (thorough 4) capture wrappers, inside a
-//!               loop or not, written inline or reached through an include inside the capture
+//!               loop or not, written inline or reached through an include (of a plain or of an
+//!               extending template) inside the capture
 //!   F5 jump     every chain of <= 3 (thorough 4) constructs with markers around every body, with
 //!               and without a guarded break / continue leaf, every condition / list assignment
-//!   incext      include of a template that extends (known finding, own signature)
+//!   incext      include of a template that extends = what rendering that template gives, in the
+//!               includer's scope (the pre-b2aa72a behaviour keeps its own signature); such templates
+//!               are also the children of F3's bare spelling, an F4 body placement and an F5 construct
 //! Every program is also rendered moved into an included template and into a block body (F3: every
 //! sequence shorter than the tier's maximum), and every render of a program's own entry template is
 //! executed twice on the same instance.
@@ -106,6 +109,8 @@ struct Spec {
     class: fn(&Outcome, &Stats) -> String,
     /// signature of a mismatch: (group tag, binding tag, kind)
     signature: fn(&str, &str, &str) -> String,
+    /// a specific, named defect the mismatch may be an instance of
+    recognize: Option<fn(&Program, &str, &Bindings, &Out) -> Option<String>>,
 }
 
 fn plain_class(o: &Outcome, _: &Stats) -> String {
@@ -203,7 +208,9 @@ fn run_group(acc: &mut Acc, spec: &Spec, inst: &mut Instance, g: &Group<'_>, sel
             tot.captures += stats.captures;
             tot.includes += stats.includes;
             if let Some(kind) = judge(&out, &adm) {
-                let sig = if placed && !main_failed {
+                let sig = if let Some(s) = spec.recognize.and_then(|f| f(p, entry, b, &out)) {
+                    s
+                } else if placed && !main_failed {
                     format!("moved-into-{}:{}:{kind}", if entry == VIA_INC { "include" } else { "block" }, spec.name)
                 } else {
                     (spec.signature)(g.tag, &b.tag, kind)
@@ -295,6 +302,7 @@ fn main() {
             (Outcome::SyntaxErr(_), _) => "refused".into(),
         },
         signature: |g, _b, k| format!("branch:{g}:{k}"),
+        recognize: None,
     };
     run.family(
         Family::new(
@@ -318,6 +326,7 @@ fn main() {
         nontrivial: |o, s| o.is_ok() && (s.iterations > 0 || s.else_runs > 0),
         class: plain_class,
         signature: |g, b, k| format!("loop:{g}:{b}:{k}"),
+        recognize: None,
     };
     run.family(
         Family::new(
@@ -341,6 +350,7 @@ fn main() {
         nontrivial: |_, s| s.shadowed_lookups > 0 || s.dropped_bindings > 0,
         class: plain_class,
         signature: |g, b, k| format!("scope:{g}:{b}:{k}"),
+        recognize: None,
     };
     run.family(
         Family::new(
@@ -369,13 +379,14 @@ fn main() {
         nontrivial: |o, s| o.is_ok() && s.captures > 0,
         class: plain_class,
         signature: |g, b, k| format!("capture:{g}:{b}:{k}"),
+        recognize: None,
     };
     run.family(
         Family::new(
             "f4-capture",
             fam::f4_items(thorough),
             &format!(
-                "every stack of 1..={} wrappers from {{set, set|upper, set|trim|replace, filter upper, filter replace}} x inside a loop or not x body inline or through an include, around 28 if-programs, 68 single loops x 16 iterables and 18 nested loops; x 3 placements",
+                "every stack of 1..={} wrappers from {{set, set|upper, set|trim|replace, filter upper, filter replace}} x inside a loop or not x body inline / through an include / through an include of an extending template (body in an overridden block after super()), around 28 if-programs, 68 single loops x 16 iterables and 18 nested loops; x 3 placements",
                 fam::f4_max_depth(thorough)
             ),
         ),
@@ -395,13 +406,14 @@ fn main() {
         nontrivial: |o, _| !matches!(o, Outcome::RenderErr(_)),
         class: plain_class,
         signature: |g, _b, k| format!("jump:{g}:{k}"),
+        recognize: None,
     };
     run.family(
         Family::new(
             "f5-jump",
             fam::f5_items(thorough),
             &format!(
-                "every chain of 1..={} constructs from 12 (construct, child position) pairs x leaf in {{none, guarded break, guarded continue}} x every condition in {{T,F}} / list in {{[],[1],[1,2]}} / jump index in {{never,1,2}}; x 3 placements",
+                "every chain of 1..={} constructs from 13 (construct, child position) pairs (if, if-else x2, if-elif-else x3, for, for-else x2, set-block, filter section, include, include of an extending template) x leaf in {{none, guarded break, guarded continue}} x every condition in {{T,F}} / list in {{[],[1],[1,2]}} / jump index in {{never,1,2}}; x 3 placements",
                 fam::f5_max_depth(thorough)
             ),
         )
@@ -417,46 +429,29 @@ fn main() {
     );
 
     // ------------------------------------------------------------------ include of an extending template
+    let incext = Spec {
+        name: "include-extends",
+        nontrivial: |_, _| true,
+        class: plain_class,
+        signature: |_g, b, k| format!("include-of-extending-template:{b}:{k}"),
+        // the behaviour before the repair b2aa72a keeps its own signature
+        recognize: Some(|p, entry, b, out| match (out, refinterp::render_with_old_include_of_extending(p, entry, b)) {
+            (Out::Ok(s), Outcome::Ok(t)) if *s == t && entry != "c" => {
+                Some("include-of-extending-template-renders-only-own-nodes".to_string())
+            }
+            _ => None,
+        }),
+    };
     run.family(
         Family::new(
             "include-extends",
             fam::incext_items(thorough),
-            "4 includers (plain, in a loop, in a set-block, in a filter section) x 3 children (override, no override, override reading the includer's variable) x 2 bases; the child rendered directly as a control",
+            "5 includers (after a set, in a loop over a, in a set-block, in a filter section, plain) x 7 children (override, no override, override reading a, super(), set / set_global inside the block, 3-level chain with two super()) x 2 bases x 4 (context, global) configurations x 3 placements, plus the child rendered directly",
         ),
         |item, acc: &mut Acc| {
             fam::incext_decode(item, thorough, &mut |g| {
-                let p = g.program;
-                let b = &g.bindings[0];
                 let mut inst = Instance::new();
-                let (added, _) = inst.load(p);
-                if !added.is_ok() {
-                    acc.case(true, "rejected");
-                    acc.violation("include-of-extending-template:rejected", added.show(), || json!({"templates": p.json()}));
-                    return;
-                }
-                let ctx = context_of(b);
-                for entry in &p.entries {
-                    let (expected, _) = refinterp::render(p, entry, b, &refinterp::Opts::default());
-                    let out = engine::render(&inst.tera, entry, &ctx);
-                    let ok = matches!((&out, &expected), (Out::Ok(s), Outcome::Ok(t)) if s == t);
-                    acc.case(true, if ok { "as-documented" } else { "differs" });
-                    if ok {
-                        continue;
-                    }
-                    let own_nodes_only = refinterp::render_ignoring_parents(p, entry, b);
-                    let sig = if entry != "main" {
-                        "include-extends-control:direct-render-of-child-differs".to_string()
-                    } else if matches!((&out, &own_nodes_only), (Out::Ok(s), Outcome::Ok(t)) if s == t) {
-                        "include-of-extending-template-renders-only-own-nodes".to_string()
-                    } else {
-                        "include-of-extending-template:other-mismatch".to_string()
-                    };
-                    acc.violation(
-                        sig,
-                        format!("engine gave {}, the documented reading (include renders the template, i.e. with its inheritance) gives {}", out.show(), expected.show()),
-                        || case_json(p, entry, b, &[expected.clone()]),
-                    );
-                }
+                run_group(acc, &incext, &mut inst, &g, true);
             });
         },
     );
@@ -479,7 +474,7 @@ fn main() {
             run.guard(&format!("reference-exercised-{c}"), n > 0, format!("{n}"));
         }
         let n = run.evaluations("include-extends");
-        run.guard("include-extends-ran", n == 48, format!("{n} renders"));
+        run.guard("include-extends-ran", n == 70 * 4 * 4, format!("{n} renders"));
     }
     run.finish();
 }
